@@ -34,8 +34,8 @@ Where each clause of the statement is decided
  7 "its hydrostatic form and its general form converge to the same value when z is the
     hydrostatic height of the moist column"
        check_conv: analytic moist column (smooth T(s), x(s), s = ln(p_s/p)); z by 10-point
-       Gauss-Legendre per finest cell with the moist molar mass; grids of 64..2048 layers
-       (uniform in p, uniform in ln p, irregular; refined by bisection); |general - hydrostatic|
+       Gauss-Legendre per finest cell with the moist molar mass; base grids of 64/96/128 layers
+       (uniform in p, uniform in ln p, irregular) bisected five times; |general - hydrostatic|
        must shrink >= 3.5x per doubling (until 1e-10 relative) and be <= 1e-4 on the finest
        grid; each form against the quadrature value the same way
                                          keys iwv-forms-diverge, iwv-hydrostatic-convergence,
@@ -101,7 +101,7 @@ ASSUMPTIONS = [
     "standard_atmosphere between tabulated levels is compared with linear interpolation of the "
     "same table (documented behaviour), bound 8u|T| + K_LIB u |ln p| |slope|",
 ]
-MIN_NONTRIVIAL = {"quick": 3000, "thorough": 30000}
+MIN_NONTRIVIAL = {"quick": 3000, "thorough": 20000}
 REQUIRED_COUNTERS = {
     "ic.calls": 20000,
     "ic.lanes": 20000,
@@ -126,7 +126,7 @@ K_LIB = 4
 
 
 def shards(tier, seed):
-    mult = 1 if tier == "quick" else 20
+    mult = 1 if tier == "quick" else 45
     out, idx = [], {}
     for k in KINDS_QUICK:
         i = idx.get(k, 0)
@@ -250,9 +250,13 @@ class Probe(Recorder):
         Recorder.__init__(self, ID, None)
 
 
+NONTRIV_CAP = 6000        # distinct non-trivial cases registered per shard (sub-sample)
+
+
 def _merge(rec, probe):
     rec.evaluations += probe.evaluations
-    rec.nontrivial |= probe.nontrivial
+    if len(rec.nontrivial) < NONTRIV_CAP:
+        rec.nontrivial |= probe.nontrivial
     for k, v in probe.counters.items():
         if k.startswith("violations:"):
             continue
